@@ -2,12 +2,16 @@ use crate::core::{Cfg, Meta, Rep};
 pub mod c01;
 pub mod c02;
 pub mod c03;
+pub mod c14;
+pub mod c18;
 
 pub fn meta(prop: &str) -> Option<Meta> {
     Some(match prop {
         "C01" => c01::meta(),
         "C02" => c02::meta(),
         "C03" => c03::meta(),
+        "C14" => c14::meta(),
+        "C18" => c18::meta(),
         _ => return None,
     })
 }
@@ -17,6 +21,8 @@ pub fn run(prop: &str, cfg: &Cfg, rep: &mut Rep) {
         "C01" => c01::run(cfg, rep),
         "C02" => c02::run(cfg, rep),
         "C03" => c03::run(cfg, rep),
+        "C14" => c14::run(cfg, rep),
+        "C18" => c18::run(cfg, rep),
         _ => panic!("unknown property {prop}"),
     }
 }
